@@ -13,6 +13,11 @@ a subprocess running under another PYTHONHASHSEED):
           | ["obj", s] (an object whose str() is s)
           | ["charset", s] | ["content", s] (CharsetMetaAttributeValue / ContentMetaAttributeValue with original value s:
             what a parsed <meta charset=...> / <meta http-equiv=Content-Type content=...> carries)
+          | ["navstr", s] (a parentless NavigableString used as an attribute value)
+  more entries: "prettify_enc" (prettify(encoding=case["encoding"], formatter=...)), and on a string:
+            "str_output_ready", "str_format_string" (el.format_string(el, formatter)), "str_substitute" (Formatter.substitute(el))
+  a case with "_history" is rendered after a history (see run_history): the element at "path" of tree "a" is first
+  rendered / copied there, then moved into tree "b" (or only extracted), then rendered as the case says
   optional: "eventual": str|None  (eventual_encoding passed to decode / decode_contents; default "utf-8"),
             "encoding": str       (encoding passed to encode / encode_contents; default "utf-8")
   <formatter spec> = {"way": "object", "cls": "Formatter"|"HTMLFormatter"|"XMLFormatter", "kw": {...}}
@@ -142,6 +147,8 @@ def make_value(v):
     t = v[0]
     if t == "obj":
         return _Obj(v[1])
+    if t == "navstr":
+        return NavigableString(v[1])          # a parentless NavigableString stored as an attribute value
     if t == "charset":
         return CharsetMetaAttributeValue(v[1])
     if t == "content":
@@ -183,6 +190,8 @@ def value_desc(v):
         return ["list", [str(x) for x in v]]
     if isinstance(v, _Obj):
         return ["obj", v.text]
+    if isinstance(v, NavigableString):
+        return ["navstr", str(v)]
     if isinstance(v, CharsetMetaAttributeValue):
         return ["charset", v.original_value]
     if isinstance(v, ContentMetaAttributeValue):
@@ -219,11 +228,9 @@ def materialise(case):
     return root, el
 
 
-def run_case(case):
-    """-> {"out": str | None, "exc": None | exception class name, "calls": [str] }"""
-    log = []
+def render(el, case, log):
+    """one rendering call on a live element -> {"out", "exc", "calls"}"""
     try:
-        root, el = materialise(case)
         fmt = make_formatter(case["fmt"], log) if case["fmt"] is not None else None
         entry = case["entry"]
         with warnings.catch_warnings():
@@ -234,6 +241,8 @@ def run_case(case):
                 out = el.decode(case["level"], ev, fmt)
             elif entry == "prettify":
                 out = el.prettify(formatter=fmt)
+            elif entry == "prettify_enc":
+                out = el.prettify(encoding=enc, formatter=fmt).decode(enc)
             elif entry == "decode_contents":
                 out = el.decode_contents(case["level"], ev, fmt)
             elif entry == "encode":
@@ -242,11 +251,58 @@ def run_case(case):
                 out = el.encode_contents(case["level"], enc, fmt).decode(enc)
             elif entry == "str_output_ready":
                 out = el.output_ready(formatter=fmt)
+            elif entry == "str_format_string":
+                out = el.format_string(el, fmt)
+            elif entry == "str_substitute":
+                f = fmt if isinstance(fmt, Formatter) else el.formatter_for_name(fmt)
+                out = f.substitute(el)
             else:
                 raise ValueError(entry)
         return {"out": str(out), "exc": None, "calls": log}
     except Exception as e:
         return {"out": None, "exc": type(e).__name__, "calls": log}
+
+
+def run_history(h, case):
+    """h = {"a": {"tree"|"soup"}, "path": [...], "first": None | {"action": "render"|"copy", "fmt", "entry", "level"},
+            "how": "append"|"replace"|"extract"|"stay", "b": {"tree"|"soup"} | None, "dest_path": [...]}
+    The element x at `path` of tree a is rendered (or copied) where it is, then extracted and appended to / put in
+    place of the first child of the element at dest_path of tree b (or left parentless), then rendered per `case`."""
+    import copy as _copy
+    a = h["a"]
+    root_a, x = materialise({"soup": a.get("soup"), "tree": a.get("tree"), "path": h["path"]})
+    first = h.get("first")
+    if first:
+        if first["action"] == "copy":
+            _copy.copy(x)
+        else:
+            render(x, first, [])
+    keep = [root_a]
+    if h["how"] != "stay":
+        x.extract()
+        if h["how"] != "extract":
+            b = h["b"]
+            root_b, dest = materialise({"soup": b.get("soup"), "tree": b.get("tree"), "path": h["dest_path"]})
+            keep.append(root_b)
+            if h["how"] == "append":
+                dest.append(x)
+            else:
+                dest.contents[0].replace_with(x)
+    return render(x, case, [])
+
+
+def run_case(case):
+    """-> {"out": str | None, "exc": None | exception class name, "calls": [str] }"""
+    if case.get("_history"):
+        try:
+            return run_history(case["_history"], case)
+        except Exception as e:
+            return {"out": None, "exc": "HISTORY:" + type(e).__name__, "calls": []}
+    try:
+        root, el = materialise(case)
+    except Exception as e:
+        return {"out": None, "exc": type(e).__name__, "calls": []}
+    return render(el, case, [])
 
 
 def formatter_fields(f):
